@@ -90,6 +90,13 @@ def run(ctx):
     n_hs = hook_save(ctx, prog)
     ctx.require(n_hs >= 8, 'only %d save-and-wrap sites found' % n_hs)
 
+    ctx.rule('READ-COUNT', 'every function installed in a typed read slot that returns a local accumulator feeds that accumulator only from results of calls (psf_fread, a block reader, another '
+             'typed reader) - directly or through a local whose every definition is such a result - or with 0: a count fed from the request (the chunk length taken from len) reports '
+             'items that a short read never delivered (frozen: the ALAC readers add the frames of the block the decoder has just produced)', floor=90)
+    from engine.readcount import read_count
+    n_rc = read_count(ctx, prog)
+    ctx.require(n_rc >= 90, 'only %d accumulator feeds found in the read slots' % n_rc)
+
     from engine.run import borrow
     borrow(ctx, 'C03', ['TABLE-INDEX'], 'a write call whose sample value steers a table subscript outside the table reads memory outside anything the caller supplied (G.711 float encoders)')
     borrow(ctx, 'C11', ['BLOCK-RESTORE'], 'items a write call has accepted (w = requested) must reach the file: a header refresh that loses the codec\'s fill count makes the next write overwrite them')
